@@ -81,6 +81,7 @@ type frame struct {
 	params      []Val
 	freeVars    []Val
 	rangeOf     map[*ssa.Range]Val
+	locals      map[*ssa.Alloc]bool
 }
 
 type FnVC struct {
@@ -141,7 +142,7 @@ func (v *FnVC) Build() (err error) {
 	if len(v.fn.Blocks) == 0 {
 		return unsupported("no body")
 	}
-	st := &State{heap: map[string]Term{}, allocPtr: v.sc.DeclareConst("allocptr@0", SInt)}
+	st := &State{heap: map[string]Term{}, ghost: map[string]Term{}, allocPtr: v.sc.DeclareConst("allocptr@0", SInt)}
 	v.sc.Assert(Le(tZero, st.allocPtr))
 	fr := &frame{fn: v.fn, top: true}
 	v.top = fr
@@ -1139,8 +1140,40 @@ func (v *FnVC) enterLoop(fr *frame, li *loopInfo, b *ssa.BasicBlock, st *State, 
 	}
 	// 3. havoc
 	li.mods = v.loopMods(fr, li)
-	v.applyMods(st, li.mods)
+	direct := map[string]Sort{}
+	for _, bb := range fr.fn.Blocks {
+		if !li.body[bb.Index] {
+			continue
+		}
+		for _, ins := range bb.Instrs {
+			switch x := ins.(type) {
+			case *ssa.Store:
+				v.w.mods.storeTargetFams(x.Addr, direct)
+			case ssa.CallInstruction:
+				if bi, ok := x.Common().Value.(*ssa.Builtin); ok && (bi.Name() == "append" || bi.Name() == "copy") {
+					for f, so := range v.callMods(x).Fams {
+						direct[f] = so
+					}
+				}
+			}
+		}
+	}
+	v.withLocalFrameExcept(fr, st, direct, func() { v.applyMods(st, li.mods) })
 	v.bumpAlloc(st, reach)
+	for _, bb := range fr.fn.Blocks {
+		if !li.body[bb.Index] {
+			continue
+		}
+		for _, ins := range bb.Instrs {
+			if ci, ok := ins.(ssa.CallInstruction); ok {
+				if cal := ci.Common().StaticCallee(); cal != nil {
+					for _, g := range []string{"called#", "errSeen#"} {
+						st.ghost[g+FuncKey(cal)] = v.sc.Fresh("ghost", SBool)
+					}
+				}
+			}
+		}
+	}
 	ov2 := map[string]Val{}
 	for _, phi := range phis {
 		if _, isPtr := pre[phi].(PtrV); isPtr {
